@@ -169,6 +169,10 @@ class Universe:
         d = self.desc["mols"][k]
         if fresh or k not in self._mols:
             m = zoo.make_mol(d["name"], d["basis"], shift=d.get("shift"))
+            if d.get("stretch"):
+                # the same atoms at another geometry (a step of a scan): not a rigid motion
+                m = m.set_geom_(m.atom_coords(unit="Bohr") * float(d["stretch"]), unit="Bohr", inplace=False)
+                m.verbose = 0
             if d.get("abs_coords") is not None:
                 m = m.set_geom_(np.asarray(d["abs_coords"]), unit="Bohr", inplace=False)
                 m.verbose = 0
@@ -182,7 +186,23 @@ class Universe:
 
         key = (k, nspin, j)
         if key not in self._dms:
-            if j == 2 and self.desc.get("near_dup"):
+            if j == 1 and self.desc.get("fd_dm"):
+                # a finite-difference displaced matrix (what a derivative check of the energy
+                # hands over): symmetric, not positive semi-definite, so tau < tau_W and
+                # slightly negative densities occur at some grid points
+                # (the base is a matrix of occupied orbitals - rank = number of occupied orbitals,
+                # as every SCF density matrix -, so the small displacement makes it indefinite;
+                # the seeded matrices above are full-rank positive definite)
+                from pyscf import scf
+
+                base = np.asarray(scf.UHF(self.mol(k)).get_init_guess(key="minao" if self.mol(k).nelectron < 2 else "huckel"))
+                if nspin == 1:
+                    base = base[0] + base[1]
+                r = np.random.default_rng(4242 + int(self.desc["mols"][k]["dseed"]) % 10**6)
+                nz = r.normal(size=base.shape[-2:])
+                amp = np.abs(base).max(axis=(-2, -1), keepdims=True)  # per spin channel: an empty channel stays empty
+                self._dms[key] = np.ascontiguousarray(base + (0.002 if int(self.desc["mols"][k]["dseed"]) % 2 else 0.0005) * amp * (nz + nz.T))
+            elif j == 2 and self.desc.get("near_dup"):
                 # a density matrix that differs from matrix 0 by ~3e-8 relative (symmetric)
                 base = self.dm(k, nspin, 0)
                 r = np.random.default_rng(777 + int(self.desc["mols"][k]["dseed"]) % 10**6)
@@ -209,23 +229,15 @@ def _retrain(model, factor):
                 fe.coeff_sets = [np.ascontiguousarray(np.asarray(c) * factor) for c in cs]
 
 
-def make_ks(model, mol, uks, gcfg, mdesc):
-    from pyscf import dft
-
-    from ciderpress.pyscf.dft import make_cider_calc
+def make_inits(model, mdesc):
+    """the initializer objects a caller hands to make_cider_calc / set_mlxc for `model`
+    (none when the description says the caller relies on the package's defaults)"""
     from ciderpress.pyscf.nldf_convolutions import PySCFNLDFInitializer
 
-    ks = dft.UKS(mol) if uks else dft.RKS(mol)
-    ks.verbose = 0
-    ks.grids.level = gcfg.get("level", 0)
-    if gcfg.get("atom_grid"):
-        ks.grids.atom_grid = tuple(gcfg["atom_grid"])
-    if not gcfg.get("prune", True):
-        ks.grids.prune = None
     nldf_init = None
     st = model.settings
     kw = None
-    if st.has_nldf:
+    if st.has_nldf and not mdesc.get("no_init"):
         kw = dict(aparam=0.04, dparam=0.06, alpha_max=float(mdesc.get("alpha_max", 3000.0)), aux_lambd=1.9)
         if mdesc.get("lmax"):
             kw["lmax"] = int(mdesc["lmax"])  # a calculator that asks for a smaller angular cut-off on (possibly shared) grids
@@ -242,11 +254,28 @@ def make_ks(model, mol, uks, gcfg, mdesc):
             **kw,
         )
     sdmx_init = None
-    if st.has_sdmx and mdesc.get("sdmx_kw"):
+    if st.has_sdmx and mdesc.get("sdmx_kw") and not mdesc.get("no_init"):
         # an explicit initializer for the SDMX generator (low-memory mode, own exponent ladder)
         from ciderpress.pyscf.sdmx import PySCFSDMXInitializer
 
         sdmx_init = PySCFSDMXInitializer(st.sdmx_settings, **mdesc["sdmx_kw"])
+    return nldf_init, sdmx_init, kw
+
+
+def make_ks(model, mol, uks, gcfg, mdesc):
+    from pyscf import dft
+
+    from ciderpress.pyscf.dft import make_cider_calc
+    from ciderpress.pyscf.nldf_convolutions import PySCFNLDFInitializer
+
+    ks = dft.UKS(mol) if uks else dft.RKS(mol)
+    ks.verbose = 0
+    ks.grids.level = gcfg.get("level", 0)
+    if gcfg.get("atom_grid"):
+        ks.grids.atom_grid = tuple(gcfg["atom_grid"])
+    if not gcfg.get("prune", True):
+        ks.grids.prune = None
+    nldf_init, sdmx_init, kw = make_inits(model, mdesc)
     if mdesc.get("via_file"):
         # the functional is handed over as a file name (what make_cider_calc documents): the
         # user's one model file, overwritten by each retrained model, its time stamp preserved
@@ -402,9 +431,21 @@ def gen_ni_history(seed):
         j_ = rng.below(3)
         mems = sorted(set(MAXMEMS), reverse=True)
         rng.shuffle(mems)
+        # half of the sweeps use the displaced (not positive semi-definite) matrix of a
+        # derivative check: tau < tau_W and negative tails meet every block boundary
+        fd_ = bool(rng.chance(0.5))
+        if fd_:
+            j_ = 1
+            if rng.chance(0.7):
+                # ... on the restricted path of a nonlocal model (the feature generator keeps the
+                # density of the feature pass for the potential pass)
+                nld = [m_ for m_ in NI_MODELS if m_[0].startswith("nldf")]
+                s_, ev_, mode_, ver_ = rng.choice(nld)
+                models = [dict(models[0], settings=s_, ev=ev_, mode=mode_, version=ver_, rhocut=rng.choice([None, 1e-6]))]
+                uks_ = False
         for mm in mems:
             ops.append({"op": "call", "model": 0, "mol": 0, "grid": 0, "uks": uks_, "dms": [j_], "max_memory": mm, "calc": 0, "container": "single", "alias": None})
-        return {"kind": "ni", "models": models, "mols": mols[:1], "grids": grids[:1], "ops": ops, "perturb": rng.choice(PERTURBS)}
+        return {"kind": "ni", "models": models, "mols": mols[:1], "grids": grids[:1], "ops": ops, "perturb": rng.choice(PERTURBS), "fd_dm": fd_}
     if not big and rng.chance(0.1):
         # two calculators for one model on one grids object, configured with different optional
         # settings (angular cut-off, top exponent), used alternately
@@ -416,6 +457,32 @@ def gen_ni_history(seed):
         for it in range(rng.randint(3, 5)):
             ops.append(dict(tmpl, calc=it % 2, dms=[rng.below(2)], uks=bool(rng.chance(0.4))))
         return {"kind": "ni", "models": models, "mols": mols[:1], "grids": grids[:1], "ops": ops, "perturb": rng.choice(PERTURBS)}
+    if not big and rng.chance(0.12):
+        # a weave: one calculator, calls that walk through (spin treatment, molecule, grids)
+        # combinations, first changing several of them at once and then only one - so that
+        # state kept per spin treatment, per molecule or per grids object is asked for again
+        # after the *other* coordinates have moved on (e.g. restricted on A, unrestricted on B,
+        # restricted on B), emitted on purpose
+        nld = [m_ for m_ in NI_MODELS if m_[0].startswith("nldf") or "sdmx" in m_[0]]
+        s_, ev_, mode_, ver_ = rng.choice(nld)
+        models = [dict(models[0], settings=s_, ev=ev_, mode=mode_, version=ver_)]
+        models[0].pop("calc1", None)
+        base = {"name": rng.choice(["LiH", "H2O", "OH", "HeH+"]), "basis": rng.choice(["sto-3g", "6-31g"]), "dseed": rng.below(10**6)}
+        # the same atoms at another geometry (grids of the same size), or another molecule
+        if rng.chance(0.7):
+            other = dict(base, shift=None, dseed=base["dseed"] + 1, stretch=rng.choice([0.9, 1.15]))
+        else:
+            other = dict(base, name=rng.choice([n_ for n_ in NI_MOLS if n_ != base["name"]]), dseed=base["dseed"] + 1)
+        mols = [base, other]
+        grids = grids[:1] if rng.chance(0.6) else [grids[0], rng.choice(gcfgs)]
+        tmpl = {"op": "call", "model": 0, "grid": 0, "dms": [0], "max_memory": 2000, "calc": 0, "container": "single", "alias": None}
+        u0 = bool(rng.chance(0.5))
+        walk = [(u0, 0, 0), (not u0, 1, 0), (u0, 1, 0), (not u0, 0, 0), (u0, 0, 0)]
+        if len(grids) > 1:
+            walk = [(u0, 0, 0), (not u0, 0, 1), (u0, 0, 1), (not u0, 1, 0), (u0, 1, 0), (u0, 0, 0)]
+        for (u_, m_, g_) in walk[: rng.randint(3, len(walk))]:
+            ops.append(dict(tmpl, uks=u_, mol=m_, grid=g_, dms=[rng.below(2)]))
+        return {"kind": "ni", "models": models, "mols": mols, "grids": grids, "ops": ops, "perturb": rng.choice(PERTURBS)}
     for _ in range(rng.randint(3, 8)):
         c = rng.weighted([("call", 16), ("reset", 2), ("build", 2), ("regrid", 2), ("regrid_inplace", 4 if nmol > 1 else 0), ("drop_all", 1)])
         if c == "drop_all":
@@ -648,6 +715,18 @@ def exec_ni_history(hist, rp):
                 stats["gradient_potential_not_implemented_for_model"] += 1
                 continue
             except Exception as ex:
+                if hist.get("fd_dm") and 1 in op["dms"]:
+                    # (a displaced, not positive semi-definite matrix: see the energy calls)
+                    try:
+                        ksr = make_ks(U.fresh_model(mi), U.mol(k, fresh=True), g_uks, hist["grids"][gi], dict(mdesc_of(mi, op.get("calc", 0)), via_file=False))
+                        ksr.build()
+                        gfn(ksr._numint, ksr.mol, build_grids(ksr, ksr.mol), ksr.xc, gdm(1))
+                        same = False
+                    except Exception as ex2:
+                        same = type(ex2).__name__ == type(ex).__name__
+                    if same:
+                        stats["displaced_matrix_refused_by_fresh_objects_too"] += 1
+                        continue
                 V("call-raises:%s:%s" % (gname, type(ex).__name__), "step %d: %s" % (step, str(ex)[:200]))
                 break
             if adigest(arg_g) != b_g:
@@ -760,6 +839,12 @@ def exec_ni_history(hist, rp):
             if ref_exc == type(ex).__name__ and isinstance(ex, RuntimeError) and "exponent is too large" in str(ex):
                 # a documented rejection that fresh objects issue as well; the objects are used again
                 stats["rejected_by_fresh_objects_too"] += 1
+                continue
+            if ref_exc == type(ex).__name__ and hist.get("fd_dm") and 1 in op["dms"]:
+                # a displaced matrix that is not positive semi-definite can give negative
+                # densities where a model has no value (NaN, refused by the solver): a request
+                # fresh objects refuse in the same way says nothing about history
+                stats["displaced_matrix_refused_by_fresh_objects_too"] += 1
                 continue
             V("call-raises:%s:%s:%s" % ("nr_uks" if uks else "nr_rks", type(ex).__name__, tb[-1].name if tb else "?"), "step %d: %s" % (step, str(ex)[:200]))
             break
@@ -1334,9 +1419,19 @@ def gen_ks_history(seed):
             mols.append({"name": rng.choice(names), "basis": "sto-3g", "dseed": rng.below(10**6)})
     ops = []
     cur = 0
+    models = [model]
+    if rng.chance(0.35):
+        # a second functional of the same family (another training run: other parameters, same
+        # number of features), put on the same Kohn-Sham object with set_mlxc
+        models.append(dict(model, seed=rng.below(10**6)))
     for _ in range(rng.randint(3, 7)):
-        c = rng.weighted([("veff", 5), ("scf", 2), ("reset", 4), ("level", 1), ("displace", 2), ("grad", 2), ("analyze", 2)])
-        if c == "analyze":
+        c = rng.weighted([("veff", 5), ("scf", 2), ("reset", 4), ("level", 1), ("displace", 2), ("grad", 2), ("analyze", 2)] + ([("swap", 4)] if len(models) > 1 else []))
+        if c == "swap":
+            # the caller may or may not hand over initializer objects with the new functional
+            ops.append({"op": "swap", "to": rng.below(2), "explicit_init": bool(rng.chance(0.4))})
+            if rng.chance(0.7):
+                ops.append({"op": "veff", "dm": rng.below(3)})
+        elif c == "analyze":
             # post-processing between uses of one Kohn-Sham object: an SCF run, then the package's
             # ElectronAnalyzer.from_calc on it - with another grid level it re-evaluates the energy on
             # the calculator's own grids object rebuilt in place and restores the level afterwards
@@ -1360,7 +1455,7 @@ def gen_ks_history(seed):
             ops.append({"op": "grad", "cycles": 1, "dm": rng.below(3), "grid_response": bool(rng.chance(0.4))})
         else:
             ops.append({"op": "scf", "cycles": rng.choice([1, 2]), "dm": rng.below(3)})
-    return {"kind": "ks", "models": [model], "mols": mols, "grids": [{"level": 0}], "uks": uks, "ops": ops, "perturb": rng.choice(PERTURBS)}
+    return {"kind": "ks", "models": models, "mols": mols, "grids": [{"level": 0}], "uks": uks, "ops": ops, "perturb": rng.choice(PERTURBS)}
 
 
 def exec_ks_history(hist, rp):
@@ -1377,6 +1472,7 @@ def exec_ks_history(hist, rp):
 
     uks = hist["uks"]
     mdesc = hist["models"][0]
+    curm = 0  # the functional the long-lived object currently carries
 
     def scf_run(ks, cycles, dm0):
         # the starting density is always given explicitly: PySCF itself restarts kernel()
@@ -1433,6 +1529,19 @@ def exec_ks_history(hist, rp):
                 ks.grids.level = level
                 ks.reset(U.mol(cur))
                 continue
+            if c == "swap":
+                # another functional on the same Kohn-Sham object (public set_mlxc), with or
+                # without initializer objects of the caller's; later requests are answered
+                # like those of a fresh object made for that functional in the same way
+                curm = op["to"] % len(hist["models"])
+                mdesc = dict(hist["models"][curm], no_init=not op.get("explicit_init"))
+                ni_, si_, _kw = make_inits(U.model(curm), mdesc)
+                ks.set_mlxc(U.model(curm), xmix=mdesc.get("xmix", 0.5), nldf_init=ni_, sdmx_init=si_, rhocut=mdesc.get("rhocut"))
+                ks.grids.verbose = 0
+                ks.build()
+                stats["functional_swaps_on_one_ks_object"] += 1
+                stats["functional_swaps_without_initializers"] += int(not op.get("explicit_init"))
+                continue
             if c == "displace":
                 m = U.mol(cur)
                 xyz = m.atom_coords(unit="Bohr") + np.asarray(op["delta"])[: m.natm]
@@ -1456,7 +1565,7 @@ def exec_ks_history(hist, rp):
                 try:
                     set_perturb(hist["perturb"] ^ 0x5A)
                     mol_f = U.mol(cur, fresh=True)
-                    ks_f = make_ks(U.fresh_model(0), mol_f, uks, {"level": level}, mdesc)
+                    ks_f = make_ks(U.fresh_model(curm), mol_f, uks, {"level": level}, mdesc)
                     ks_f.build()
                     do(ks_f, mol_f, op, cur)
                 except Exception as ex2:
@@ -1466,6 +1575,9 @@ def exec_ks_history(hist, rp):
             # (narrow: only the documented input rejection "NLDF exponent is too large")
             if ref_exc == type(ex).__name__ and isinstance(ex, RuntimeError) and "exponent is too large" in str(ex):
                 stats["rejected_by_fresh_objects_too"] += 1
+                break
+            if ref_exc == type(ex).__name__ and hist.get("fd_dm") and op.get("dm", 0) == 1:
+                stats["displaced_matrix_refused_by_fresh_objects_too"] += 1
                 break
             # forces are documented as unsupported for some feature families: the same
             # NotImplementedError from fresh objects is a rejection; the history goes on
@@ -1480,7 +1592,7 @@ def exec_ks_history(hist, rp):
         # fresh objects for the same request
         set_perturb(hist["perturb"] ^ 0x5A)
         mol_f = U.mol(cur, fresh=True)
-        ks_f = make_ks(U.fresh_model(0), mol_f, uks, {"level": level}, mdesc)
+        ks_f = make_ks(U.fresh_model(curm), mol_f, uks, {"level": level}, mdesc)
         ks_f.build()
         ref, _ = do(ks_f, mol_f, op, cur)
         set_perturb(hist["perturb"])
@@ -1490,6 +1602,127 @@ def exec_ks_history(hist, rp):
             stats["comparisons"] += 1
             if not ok:
                 V("history_vs_fresh:ks.%s:%s:%s" % (c, name, site), "step %d (%s, mol %s after %s): %s" % (step, mdesc["settings"], hist["mols"][cur]["name"], [o["op"] for o in hist["ops"][:step]][-4:], why))
+    return viol, stats, dg
+
+
+# ---------------------------------------------------------------------------------
+# analyzer histories (one ElectronAnalyzer asked for several functionals, grids, quantities)
+# ---------------------------------------------------------------------------------
+AN_XC = ["PBE", "LDA,VWN", "SCAN", "B88,LYP", "TPSS"]
+
+
+def gen_an_history(seed):
+    rng = Rng(derive("c09-an", seed))
+    uks = bool(rng.chance(0.35))
+    name = rng.choice(["H2", "LiH", "H2O", "HeH+"] if not uks else ["OH", "O", "LiH"])
+    ops = []
+    for _ in range(rng.randint(3, 7)):
+        # (orbital values without an orbital dictionary are rejected for unrestricted analyzers -
+        # an einsum over a 3-index coefficient array -, also by fresh objects: not generated)
+        c = rng.weighted([("vxc", 6), ("on_mo", 0 if uks else 3), ("xc_energy", 2), ("rho", 1)])
+        op = {"op": c, "xc": rng.choice(AN_XC)}
+        if c == "vxc":
+            op["grids"] = rng.choice([None, None, 0, 2])
+            if rng.chance(0.3):
+                # a functional that is not in libxc, handed over as a function under a label
+                # (the label must itself be a libxc name: the helper object parses it)
+                op["custom"] = rng.choice([0.5, 0.25])
+        if c == "rho":
+            op["overwrite"] = bool(rng.chance(0.5))
+        ops.append(op)
+    return {"kind": "an", "models": [], "mols": [{"name": name, "basis": "sto-3g", "dseed": rng.below(10**6)}], "grids": [{"level": 1}], "uks": uks, "ops": ops, "perturb": rng.choice(PERTURBS)}
+
+
+def _custom_xc(factor):
+    from pyscf import dft
+
+    def eval_xc(xc_code, rho, spin=0, relativity=0, deriv=1, omega=None, verbose=None):
+        exc, vxc, fxc, kxc = dft.libxc.eval_xc("PBE", rho, spin, relativity, deriv, omega, verbose)
+        return exc * factor, tuple(None if v is None else v * factor for v in vxc), None, None
+
+    return eval_xc
+
+
+def exec_an_history(hist, rp):
+    from pyscf import dft, scf
+
+    from ciderpress.pyscf.analyzers import RHFAnalyzer, UHFAnalyzer
+
+    U = Universe(hist)
+    viol = []
+    stats = Counter()
+    dg = Digest()
+    uks = hist["uks"]
+
+    def V(key, detail):
+        viol.append({"key": key, "detail": detail, "replay": rp})
+
+    def new_analyzer():
+        mol = U.mol(0, fresh=True)
+        mf = (scf.UHF if uks else scf.RHF)(mol)
+        mf.verbose = 0
+        mf.max_cycle = 1
+        mf.conv_check = False
+        mf.kernel()
+        an = (UHFAnalyzer if uks else RHFAnalyzer)(mol, np.array(mf.make_rdm1(), copy=True), grids_level=1, mo_occ=mf.mo_occ, mo_coeff=mf.mo_coeff, mo_energy=mf.mo_energy)
+        mol.verbose = 0
+        return an
+
+    def do(an, op):
+        c = op["op"]
+        if c == "vxc":
+            kw = {}
+            if op.get("grids") is not None:
+                g = dft.gen_grid.Grids(an.mol)
+                g.level = op["grids"]
+                g.verbose = 0
+                g.build()
+                kw["grids"] = g
+            if op.get("custom"):
+                kw["xcfunc"] = _custom_xc(op["custom"])
+                kw["xctype"] = "GGA"
+            v = an.calculate_vxc(op["xc"], **kw)
+            return {"vxc": np.array(v, copy=True), "exc": float(an.get("EXC_" + op["xc"]))}
+        if c == "on_mo":
+            return {"orbxc": np.array(an.calculate_vxc_on_mo(op["xc"]), copy=True)}
+        if c == "xc_energy":
+            return {"exc": float(an.get_xc_energy(op["xc"])), "stored": float(an.get_xc(op["xc"]))}
+        return {"rho": np.array(an.get_rho_data(overwrite=op.get("overwrite", False)), copy=True)}
+
+    set_perturb(hist["perturb"])
+    an = new_analyzer()
+    dm_before = adigest(an.dm)
+    last_vxc = {}
+    for step, op in enumerate(hist["ops"]):
+        c = op["op"]
+        stats["op_an_" + c] += 1
+        dg.add(c, op.get("xc"))
+        try:
+            got = do(an, op)
+        except Exception as ex:
+            V("call-raises:analyzer.%s:%s" % (c, type(ex).__name__), "step %d: %s" % (step, str(ex)[:200]))
+            break
+        # fresh analyzer for the same request; a request for orbital values documents that it
+        # uses the potential stored under that name, so the reference computes that one first
+        set_perturb(hist["perturb"] ^ 0x5A)
+        an_f = new_analyzer()
+        if c == "on_mo" and op["xc"] in last_vxc:
+            do(an_f, last_vxc[op["xc"]])
+        ref = do(an_f, op)
+        set_perturb(hist["perturb"])
+        stats["reference_calls"] += 1
+        if c == "vxc":
+            last_vxc[op["xc"]] = op
+        elif c == "on_mo" and op["xc"] not in last_vxc:
+            last_vxc[op["xc"]] = {"op": "vxc", "xc": op["xc"]}
+        for name in sorted(ref):
+            ok, why = close(got[name], ref[name])
+            stats["comparisons"] += 1
+            if not ok:
+                V("history_vs_fresh:analyzer.%s:%s" % (c, name), "step %d (%s after %s): %s" % (step, op.get("xc"), [o["op"] + ":" + str(o.get("xc")) for o in hist["ops"][:step]][-4:], why))
+        if adigest(an.dm) != dm_before:
+            V("input-mutated:analyzer.%s:dm" % c, "step %d" % step)
+            dm_before = adigest(an.dm)
     return viol, stats, dg
 
 
@@ -1920,7 +2153,7 @@ def exec_eval_history(hist, rp):
 
 
 # ---------------------------------------------------------------------------------
-EXEC = {"tgen": exec_tgen_history, "ni": exec_ni_history, "nldfgen": exec_nldfgen_history, "sdmxgen": exec_sdmxgen_history, "eval": exec_eval_history, "plan": exec_plan_history, "ks": exec_ks_history, "slplan": exec_slplan_history}
+EXEC = {"tgen": exec_tgen_history, "ni": exec_ni_history, "nldfgen": exec_nldfgen_history, "sdmxgen": exec_sdmxgen_history, "eval": exec_eval_history, "plan": exec_plan_history, "ks": exec_ks_history, "slplan": exec_slplan_history, "an": exec_an_history}
 
 
 def gen_history(kind, seed):
@@ -1932,11 +2165,15 @@ def gen_history(kind, seed):
         h = gen_plan_history(seed)
     elif kind == "ks":
         h = gen_ks_history(seed)
+    elif kind == "an":
+        h = gen_an_history(seed)
     else:
         h = gen_eval_history(seed)
     r = Rng(derive("c09-flags", kind, seed))
     h["scribble"] = bool(r.chance(0.4))
     h["near_dup"] = bool(r.chance(0.3))
+    fd_ = bool(r.chance(0.25))
+    h["fd_dm"] = bool(h.get("fd_dm")) or fd_
     return h
 
 
@@ -2199,6 +2436,8 @@ def plan(tier, seed, args):
         cases.append({"hkind": "plan", "seed": derive(seed, PROP, "plan", i) % 10**9})
     for i in range(n_gen):
         cases.append({"hkind": "ks", "seed": derive(seed, PROP, "ks", i) % 10**9})
+    for i in range(n_ev // 2):
+        cases.append({"hkind": "an", "seed": derive(seed, PROP, "an", i) % 10**9})
     # enumerated fault points (not seeded): the set-up phase of the call in quick, the whole
     # call in thorough
     if args.cases is None:
